@@ -119,7 +119,35 @@ static void check_header(const rp_pattern_t * rp, const char * pattern, const ch
             if (handler_runs) why = "api/handler-run-for-invalid-header";
             else if (nerrs != 1 || errs[0] != SCPI_ERROR_UNDEFINED_HEADER) why = "api/no-single-113";
         }
-        if ((n_api & 0x1f) == 0) SCPI_ErrorClear(&ctx);
+        /* the same header as the SECOND unit of a compound message, its path inherited from the first unit:
+         * "<header>;<last mnemonic>" - suffixes of the inherited keywords must be reported as well */
+        if (!why && acc && hl < 100) {
+            int lastc = -1, q = (hl > 0 && h[hl - 1] == '?');
+            for (i = 0; i < hl; i++) if (h[i] == ':') lastc = i;
+            if (lastc > 0) {
+                char m2[300];
+                size_t l2 = 0;
+                memcpy(m2, h, (size_t) hl); l2 = (size_t) hl; m2[l2++] = ';';
+                memcpy(m2 + l2, h + lastc + 1, (size_t) (hl - lastc - 1)); l2 += (size_t) (hl - lastc - 1);
+                m2[l2++] = '\n';
+                (void) q;
+                free(ibuf); ibuf = (char *) malloc(l2 + 1);
+                ctx.buffer.data = ibuf; ctx.buffer.length = l2 + 1; ctx.buffer.position = 0;
+                nerrs = 0; handler_runs = 0;
+                SCPI_Input(&ctx, m2, (int) l2);
+                n_api++;
+                if (handler_runs != 2 || nerrs) why = "api/compound-second-unit-not-run";
+                else if (!h_cn) why = "api/compound-second-unit/SCPI_CommandNumbers-false";
+                else for (i = 0; i < nnum; i++) if (h_nums[i] != (int32_t) rn[i]) { why = "api/compound-second-unit/suffix-value"; break; }
+                if (why) {
+                    char sig[96];
+                    snprintf(sig, sizeof sig, "c03/%s", why);
+                    mc_viol(sig, "pattern [%s] message [%s]: handler runs=%d errors=%d numbers of the second unit={%d,%d,%d,%d}; reference numbers={%ld,%ld,%ld,%ld}", pattern, mc_e(m2, l2), handler_runs, nerrs, h_nums[0], h_nums[1], h_nums[2], h_nums[3], rn[0], rn[1], rn[2], rn[3]);
+                    why = NULL;
+                }
+            }
+        }
+        { static unsigned long long last_clear = 0; if (n_api - last_clear >= 16) { SCPI_ErrorClear(&ctx); last_clear = n_api; } }
         if (why) {
             char sig[96];
             snprintf(sig, sizeof sig, "c03/%s", why);
